@@ -802,6 +802,19 @@ func (l *oLocal) call(ci ssa.CallInstruction, res *ssa.Call) {
 			l.applySummary(ci, res, callee, s, args, bindings, nres)
 			continue
 		}
+		// a method value (x.M held in a variable or returned by a function) is called through a synthetic
+		// wrapper whose only act is to call M on the captured receiver: M's summary applies, with the
+		// function value - which stands for what it captured - as the receiver
+		if m, bound := wrappedMethod(callee); m != nil {
+			if s, ok := l.e.Sums[m]; ok {
+				margs := args
+				if bound {
+					margs = append([]ssa.Value{cm.Value}, args...)
+				}
+				l.applySummary(ci, res, m, s, margs, nil, nres)
+				continue
+			}
+		}
 		l.applyExternal(ci, res, callee, args, nres)
 	}
 	if len(targets) == 0 && cm.StaticCallee() == nil {
@@ -1010,4 +1023,26 @@ func (l *oLocal) applyExternal(ci ssa.CallInstruction, res *ssa.Call, callee *ss
 			l.setResult(res, k, nres, out)
 		}
 	}
+}
+
+// wrappedMethod: for a synthetic bound-method wrapper or method-expression thunk, the method it forwards to
+// (bound: the receiver is the wrapper's captured variable rather than its first parameter).
+func wrappedMethod(fn *ssa.Function) (*ssa.Function, bool) {
+	if fn == nil || fn.Synthetic == "" || len(fn.Blocks) != 1 {
+		return nil, false
+	}
+	bound := strings.HasPrefix(fn.Synthetic, "bound method wrapper")
+	if !bound && !strings.HasPrefix(fn.Synthetic, "thunk") {
+		return nil, false
+	}
+	var m *ssa.Function
+	for _, ins := range fn.Blocks[0].Instrs {
+		if c, ok := ins.(*ssa.Call); ok {
+			if m != nil {
+				return nil, false
+			}
+			m = c.Call.StaticCallee()
+		}
+	}
+	return m, bound
 }
